@@ -380,6 +380,8 @@ class ClassTr:
             raise Untranslatable(f"{self.name}.{what}: name not in whitelist: {n.id}")
         f = self.read_field(n)
         if f is not None:
+            if f in ("_ufl_typecode_", "_ufl_class_", "_ufl_handler_name_"):
+                return          # class constants
             out.append(("tf", f, self.dict_kind(f, kind)))
             return
         if isinstance(n, ast.JoinedStr):
@@ -611,10 +613,33 @@ class ClassTr:
                     return self.hashdata_tokens()
         return self.fn_reads(node, hn, 6)
 
+    def operand_count(self):
+        """Number of operands an Operator subclass stores: Operator.__init__(self, (a, b, ...)) in __init__."""
+        node, _ = fn_ast(self.cls.__init__)
+        for c in ast.walk(node):
+            if isinstance(c, ast.Call) and isinstance(c.func, ast.Attribute) and c.func.attr == "__init__" \
+                    and isinstance(c.func.value, ast.Name) and c.func.value.id == "Operator" and len(c.args) == 2 \
+                    and isinstance(c.args[1], ast.Tuple):
+                return len(c.args[1].elts)
+        raise Untranslatable(f"{self.name}: cannot determine the number of operands")
+
+    def expand_operands(self, toks):
+        """A read of the whole operand tuple is a read of every operand (when == compares them one by one)."""
+        if toks == "ofrepr" or not any(f.startswith("ufl_operands[") for f in self.fields):
+            return toks
+        n = self.operand_count()
+        out = []
+        for t in toks:
+            if t[0] == "tf" and t[1] == "ufl_operands":
+                out += [("tf", f"ufl_operands[{i}]", t[2]) for i in range(n)]
+            else:
+                out.append(t)
+        return out
+
     def translate(self):
         eqs = self.translate_eq()
-        rep = self.translate_repr()
-        hsh = self.translate_hash()
+        rep = self.expand_operands(self.translate_repr())
+        hsh = self.expand_operands(self.translate_hash())
 
         def num(toks):
             res, seen = [], set()
@@ -736,3 +761,27 @@ class Spec:
 
 def translate_class(cls, eq_name="__eq__", hash_name=None):
     return ClassTr(cls, eq_name, hash_name).translate()
+
+
+def float_format_precision():
+    """The module-level default `precision` of ufl.constantvalue and a check that format_float has the
+    expected shape (precision falsy -> f"{float(x)}", the shortest round-tripping repr).  -> (value, ok, note)"""
+    import ufl.constantvalue as cv
+    tree = ast.parse(inspect.getsource(cv))
+    val, found = None, False
+    for st in tree.body:
+        if isinstance(st, ast.Assign) and len(st.targets) == 1 and isinstance(st.targets[0], ast.Name) \
+                and st.targets[0].id == "precision":
+            if not isinstance(st.value, ast.Constant):
+                raise Untranslatable("constantvalue.precision is not a literal")
+            val, found = st.value.value, True
+    if not found:
+        raise Untranslatable("constantvalue.precision not found")
+    node, _ = fn_ast(cv.format_float)
+    b = body_wo_doc(node)
+    ok = (len(b) == 1 and isinstance(b[0], ast.If) and isinstance(b[0].test, ast.Name) and b[0].test.id == "precision"
+          and len(b[0].orelse) == 1 and isinstance(b[0].orelse[0], ast.Return)
+          and ast.unparse(b[0].orelse[0].value) in ("f'{float(x)}'", "repr(float(x))", "f'{float(x)!r}'"))
+    if not ok:
+        raise Untranslatable("format_float does not have the expected shape: " + ast.unparse(node)[:200])
+    return val
